@@ -12,6 +12,8 @@
 //!          (count, values; -1 when unset); then each query as outcome + value.
 //!   evd  : kind(1|2) i k orgflag org nt t* X  -> bsplev_single_dual / bsplev_single_dual2 (X a Dual / Dual2 abscissa)
 //!   vec  : k i m nt t* nx x*                  -> PPSpline::<f64>::new(k, t, None).bspldnev(x, i, m): `0 n bits*` | 2
+//!   mat  : k left_n right_n nt t* ntau tau*   -> PPSpline::<f64>::new(k, t, None).bsplmatrix(tau, left_n, right_n):
+//!                                                `0 rows cols bits*` (row major) | 2
 //!   ppeq : kind(0|1|2) A B, each = k nt t* hasc [nc c*] -> `0 (A == B) (B == A)` | 2 (a constructor aborts)
 use crate::cal::Rd;
 use crate::numenc::*;
@@ -121,6 +123,29 @@ pub fn run(op: &str, a: &Ints) -> Ints {
                     out.push(0);
                     out.push(v.len() as i128);
                     out.extend(v.iter().map(|x| f2i(*x)));
+                }
+                None => out.push(2),
+            }
+        }
+        "mat" => {
+            let k = r.next() as usize;
+            let ln = r.next() as usize;
+            let rn = r.next() as usize;
+            let t = rd_fvec(&mut r);
+            let tau = rd_fvec(&mut r);
+            match catch(|| {
+                let s: PPSpline<f64> = PPSpline::new(k, t.clone(), None);
+                s.bsplmatrix(&tau, ln, rn)
+            }) {
+                Some(b) => {
+                    out.push(0);
+                    out.push(b.nrows() as i128);
+                    out.push(b.ncols() as i128);
+                    for j in 0..b.nrows() {
+                        for i in 0..b.ncols() {
+                            out.push(f2i(b[[j, i]]));
+                        }
+                    }
                 }
                 None => out.push(2),
             }
